@@ -162,11 +162,33 @@ let eval_n (a : string list) : string =
     String.concat " " toks
   | _ -> "BADCASE"
 
+(* stall cases: cut column "st<cfg>.<k>": the peer goes silent after k bytes; cfg a = SetDeadline,
+   r = SetReadDeadline only, w = SetWriteDeadline only.  The model's verdict is deadline_of on the
+   exchange in which the silence is met: bounded -> the call returns a timeout error and the Conn
+   is closed (later calls: closed); unbounded -> the call never returns *)
+let is_stall cut = String.length cut > 3 && String.sub cut 0 2 = "st"
+let eval_stall (primed : bool) (a : string list) : string =
+  match a with
+  | [_; ops; _; cut] ->
+    let cfg = cut.[2] in
+    let rset = (cfg = 'a' || cfg = 'r') and wset = (cfg = 'a' || cfg = 'w') in
+    let specs = split_on ',' ops in
+    let first = List.hd specs in
+    let name = List.hd (String.split_on_char ':' first) in
+    let api = api_of_spec name None in
+    let ex = stalled_exchange primed api in
+    (match deadline_of rset wset ex with
+     | Some _ -> String.concat " " ("timeout~1" :: List.map (fun _ -> "closed~1") (List.tl specs))
+     | None -> String.concat " " (List.map (fun _ -> "hang~0") specs))
+  | _ -> "BADCASE"
+
 let () =
   run_lines (fun line ->
     let case = (match String.index_opt line '|' with
         | Some i -> String.sub line 0 i | None -> line) in
     match words case with
+    | id :: "run" :: ([_; _; _; cut] as rest) when is_stall cut -> id ^ " " ^ (try eval_stall true rest with Failure m -> "BADCASE:" ^ m)
+    | id :: "nrun" :: ([_; _; _; cut] as rest) when is_stall cut -> id ^ " " ^ (try eval_stall false rest with Failure m -> "BADCASE:" ^ m)
     | id :: "run" :: rest -> id ^ " " ^ (try eval rest with Failure m -> "BADCASE:" ^ m)
     | id :: "nrun" :: rest -> id ^ " " ^ (try eval_n rest with Failure m -> "BADCASE:" ^ m)
     | id :: _ -> id ^ " BADCASE"
